@@ -607,32 +607,35 @@ theorem uncompressedUntypedT_eq {v : View} {c : Color} (hv : VOK v c) (hc : c.OK
   · rw [if_pos hcg, if_pos hcg]
   · rw [if_neg hcg, if_neg hcg]
 
+/-- `convert_to_rgba_f32` accepts `p` whole pixels into `p` pixels of `[f32; 4]` -/
+theorem convertToRgbaF32T_eq {c : Color} (hc : c.OK) (p : Nat) : convertToRgbaF32T c (p * c.bpp) p = some () := by
+  have hcc := chanCount_pos c.ch
+  have e1 : p * c.bpp = p * (c.psize * TrapUnc.chanCount c.ch) := by unfold Color.bpp; rw [Nat.mul_comm c.psize]
+  have hne : c.psize * TrapUnc.chanCount c.ch ≠ 0 := by
+    have : 1 * 1 ≤ c.psize * TrapUnc.chanCount c.ch :=
+      Nat.mul_le_mul (by rcases hc with h | h | h <;> omega) hcc.1
+    omega
+  have hmod : p * (c.psize * TrapUnc.chanCount c.ch) % (c.psize * TrapUnc.chanCount c.ch) = 0 := Nat.mul_mod_left ..
+  have hdiv : p * (c.psize * TrapUnc.chanCount c.ch) / (c.psize * TrapUnc.chanCount c.ch) = p :=
+    Nat.mul_div_cancel _ (by omega)
+  unfold convertToRgbaF32T
+  rw [e1, remU_of_ne hne, bind_some', hmod, dbgP_of rfl, bind_some', div_of_ne hne, bind_some', hdiv,
+    dbgP_of rfl, bind_some']
+  by_cases h4 : c.psize = 4
+  · have e2 : p * 16 = p * (4 * TrapUnc.chanCount .rgba) := rfl
+    rw [if_pos h4, h4, e2, TrapUnc.convertChannelsT_eq _ _ _ _ (Or.inr (Or.inr rfl))]
+  · rw [if_neg h4]
+    unfold convertTToRgbaF32T
+    rw [TrapUnc.fromBytesT_of ⟨hne, hmod⟩, bind_some', hdiv, dbgP_of rfl]
+
 /-- `as_rgba_f32` on `p` whole pixels returns `p` pixels, whether or not the input happens to be aligned -/
 theorem asRgbaF32T_eq {c : Color} (hc : c.OK) (aligned : Bool) (p : Nat) : asRgbaF32T c aligned (p * c.bpp) p = some p := by
-  have hcc := chanCount_pos c.ch
   unfold asRgbaF32T
   by_cases hfast : c.ch = .rgba ∧ c.psize = 4 ∧ aligned = true ∧ p * c.bpp % 16 = 0
   · rw [if_pos hfast]
     have : c.bpp = 16 := by unfold Color.bpp; rw [hfast.1, hfast.2.1]; rfl
     rw [this, Nat.mul_div_cancel _ (by omega)]
-  · rw [if_neg hfast]
-    have e1 : p * c.bpp = p * (c.psize * TrapUnc.chanCount c.ch) := by unfold Color.bpp; rw [Nat.mul_comm c.psize]
-    have hne : c.psize * TrapUnc.chanCount c.ch ≠ 0 := by
-      have : 1 * 1 ≤ c.psize * TrapUnc.chanCount c.ch :=
-        Nat.mul_le_mul (by rcases hc with h | h | h <;> omega) hcc.1
-      omega
-    have hmod : p * (c.psize * TrapUnc.chanCount c.ch) % (c.psize * TrapUnc.chanCount c.ch) = 0 := Nat.mul_mod_left ..
-    have hdiv : p * (c.psize * TrapUnc.chanCount c.ch) / (c.psize * TrapUnc.chanCount c.ch) = p :=
-      Nat.mul_div_cancel _ (by omega)
-    unfold convertToRgbaF32T
-    rw [e1, remU_of_ne hne, bind_some', hmod, dbgP_of rfl, bind_some', div_of_ne hne, bind_some', hdiv,
-      dbgP_of rfl, bind_some']
-    by_cases h4 : c.psize = 4
-    · have e2 : p * 16 = p * (4 * TrapUnc.chanCount .rgba) := rfl
-      rw [if_pos h4, h4, e2, TrapUnc.convertChannelsT_eq _ _ _ _ (Or.inr (Or.inr rfl)), bind_some', pure_some']
-    · rw [if_neg h4]
-      unfold convertTToRgbaF32T
-      rw [TrapUnc.fromBytesT_of ⟨hne, hmod⟩, bind_some', hdiv, dbgP_of rfl, bind_some', pure_some']
+  · rw [if_neg hfast, convertToRgbaF32T_eq hc, bind_some', pure_some']
 
 /-- **`uncompressed_universal`** (uncompressed.rs:19) for an encoded pixel of `size` bytes built from a primitive of
 `prim` bytes -/
